@@ -174,29 +174,36 @@ def rule_t1(F):
                 r.bad(b.path, key, relfile(b.file), b.line, prob)
             elif got != want:
                 r.bad(b.path, key, relfile(b.file), b.line, "%s on floats selects %s, expected %s" % (op, got, want))
-    # --- codegen int_cmp / float_cmp
-    for fn, enum, spec, cc, want_m in (("::int_cmp", "IntCmp", INTCC, "IntCC::", "icmp"), ("::float_cmp", "FloatCmp", FLOATCC, "FloatCC::", "fcmp")):
-        b = find_body(F, fn, r, contains="codegen::")
-        if not b:
+    # --- codegen: lir IntCmp / FloatCmp -> cranelift condition code.  FuncGen::instruction is EVALUATED (vf/sx: all paths, helpers
+    # followed) on `Instruction::IntCmp { cmp: v, .. }` for every v; what is read off is the condition code and the operands that reach
+    # icmp / fcmp - whether the table lives in the arm, in a helper such as `int_cmp`, or behind a tuple match
+    from .. import sx
+    bi = find_body(F, "::instruction", r, contains="codegen::")
+    ipos = [i for i, p_ in enumerate(bi.hir.get("params") or []) if "Instruction" in str(p_.get("ty") or "")] if bi else []
+    if bi and not ipos:
+        r.missing("the lir::Instruction parameter of codegen::instruction")
+    for enum, spec, cc, want_m in (("IntCmp", INTCC, "IntCC::", "icmp"), ("FloatCmp", FLOATCC, "FloatCC::", "fcmp")):
+        if not ipos:
             continue
-        pn = [p_.get("name") for p_ in b.hir["params"]]
-        valued = [i for i, p_ in enumerate(b.hir["params"]) if "ir::Value" in str(p_.get("ty") or "") or "entities::Value" in str(p_.get("ty") or "")]
+        b = bi
+        ex = sx.Exec(F)
         seen_cc = {}
         for v, want in spec.items():
             key = "%s::%s" % (enum, v)
             got = None
             order_ok = None
             try:
-                res, events = symex.run_function(b.hir, by_type(b, {enum: v}), F=F)
-                ev = [e for e in events if e[0] == "mcall" and e[1] == want_m]
-                if len(ev) == 1 and len(ev[0][3]) == 3:
-                    got = cc + str(ev[0][3][0]) if isinstance(ev[0][3][0], str) else None
-                    if len(valued) == 2:
-                        order_ok = (str(ev[0][3][1]) == pn[valued[0]] and str(ev[0][3][2]) == pn[valued[1]])
-                prob = None if got else "no single %s(cc, left, right) reached for %s" % (want_m, v)
-            except symex.Unknown as e:
-                prob = "cannot evaluate %s on %s: %s" % (hir.last(b.path), v, e)
-            r.inst(key, {"table": "codegen" + fn, "variant": v, "condition_code": got, "operands_in_order": order_ok})
+                val = ("ctor", enum, ("to", sx.Sym("to")), ("left", sx.Sym("left")), ("right", sx.Sym("right")), ("cmp", v))
+                ps = ex.paths(b.hir, {ipos[0]: val})
+                ev = [e for _, evs in ps for e in evs if e[0] == "mcall" and e[1] in ("icmp", "fcmp", "icmp_imm")]
+                ccs = {str(e[3][0]) for e in ev if e[1] == want_m and len(e[3]) == 3 and isinstance(e[3][0], str) and not isinstance(e[3][0], sx.Sym)}
+                if ev and all(e[1] == want_m and len(e[3]) == 3 for e in ev) and len(ccs) == 1:
+                    got = cc + ccs.pop()
+                    order_ok = all(sx.mentions(e[3][1], "left") and not sx.mentions(e[3][1], "right") and sx.mentions(e[3][2], "right") and not sx.mentions(e[3][2], "left") for e in ev)
+                prob = None if got else "no single %s(cc, left, right) reached for %s (found %s)" % (want_m, v, [(e[1],) + tuple(sx.short(x, 24) for x in e[3]) for e in ev][:3])
+            except (sx.TooManyPaths, sx.Unknown) as e:
+                prob = "cannot evaluate %s on %s: %s" % (hir.last(b.path), key, e)
+            r.inst(key, {"table": "codegen::instruction on " + enum, "variant": v, "condition_code": got, "operands_in_order": order_ok})
             if prob:
                 r.bad(b.path, key, relfile(b.file), b.line, prob)
                 continue
@@ -714,22 +721,29 @@ def rule_t6(F):
     # first, then a Switch on its value is emitted whose only branch constant is 1 for && (0 for ||), and the right operand is lowered
     # after that switch
     from .. import sx
-    for fn, want in (("binop_and", 1), ("binop_or", 0)):
-        b = F.body(L + fn)
-        if b is None:
-            r.missing(L + fn)
-            continue
+    # the method that lowers a binary operator: takes the operator and two expressions and is not itself called by another such method
+    def _is_binop_lowering(x):
+        ps_ = x.hir.get("params") or []
+        return (x.path.startswith("mir::lower::Lowerer") and "{closure" not in x.path and any("ast::BinOp" in str(p_.get("ty") or "") for p_ in ps_)
+                and len([p_ for p_ in ps_ if "Meta<ast::Expr>" in str(p_.get("ty") or "")]) >= 2)
+    cands = [x for x in F.all_bodies() if x.hir and _is_binop_lowering(x)]
+    called = {hir.call_def(c) or c.get("def") for x in cands for c in list(hir.nodes(x.hir["value"], "call")) + list(hir.nodes(x.hir["value"], "mcall"))}
+    roots_ = [x for x in cands if x.path not in called]
+    if len(roots_) != 1:
+        r.missing("the Lowerer method that lowers a binary operator (operator + two expressions); candidates: %s" % sorted(x.path for x in roots_))
+    for fn, want in (("And", 1), ("Or", 0)) if len(roots_) == 1 else ():
+        b = roots_[0]
         epos = [i for i, p_ in enumerate(b.hir["params"]) if "Meta<ast::Expr>" in (p_.get("ty") or "")]
-        if len(epos) < 2:
-            r.missing("two expression parameters of " + L + fn)
-            continue
+        opos = [i for i, p_ in enumerate(b.hir["params"]) if "ast::BinOp" in (p_.get("ty") or "")]
         names_ = [b.hir["params"][i].get("name") for i in epos[:2]]
         got = None
         try:
-            ps = sx.Exec(F).paths(b.hir, {})
+            ps = sx.Exec(F).paths(b.hir, {opos[0]: fn})
         except (sx.TooManyPaths, sx.Unknown) as e_:
-            r.bad(L + fn, "short-circuit constant", relfile(b.file), b.line, "cannot evaluate %s: %s" % (fn, e_))
+            r.bad(b.path, "short-circuit constant " + fn, relfile(b.file), b.line, "cannot evaluate %s on BinOp::%s: %s" % (hir.last(b.path), fn, e_))
             continue
+        # paths on which the operator is refused for the operand type (`ice!` for a String / IpAddr / List operand) lower nothing
+        ps = [(res, evs) for res, evs in ps if res != ("diverges",)]
         consts, order_bad = set(), False
         for _, evs in ps:
             sw = [(i, c) for i, e in enumerate(evs) for a in (e[3] if e[0] == "mcall" else e[2]) for c in sx.find_ctors(a, "Switch")]
@@ -741,11 +755,11 @@ def rule_t6(F):
             if not sw or not li or not ri or not (li[0] < sw[0][0] < ri[0]):
                 order_bad = True
         got = sorted(consts)
-        r.inst("%s evaluates the right operand when the left is" % fn, {"value": got, "paths": len(ps)})
-        if order_bad:
-            r.bad(L + fn, "operands", relfile(b.file), b.line, "%s does not lower its first operand, then switch on it, then lower its second operand (on some path)" % fn)
+        r.inst("BinOp::%s evaluates the right operand when the left is" % fn, {"value": got, "paths": len(ps), "fn": b.path})
+        if order_bad or not ps:
+            r.bad(b.path, "operands of " + fn, relfile(b.file), b.line, "BinOp::%s: the lowering does not lower its first operand, then switch on it, then lower its second operand (on some path)" % fn)
         if got != [(want,)]:
-            r.bad(L + fn, "short-circuit constant", relfile(b.file), b.line, "%s must evaluate its right operand exactly when the left one is %d; found branch constants %s" % ("&&" if want else "||", want, got))
+            r.bad(b.path, "short-circuit constant " + fn, relfile(b.file), b.line, "%s must evaluate its right operand exactly when the left one is %d; found branch constants %s" % ("&&" if want else "||", want, got))
     # primitive name table of the type checker: name <-> Primitive
     ps = [p for p in F.paths() if p.endswith("typechecker::types::default_types")]
     if not ps:
